@@ -8,7 +8,7 @@ trap 'git -C /repo worktree remove --force $W >/dev/null 2>&1; rm -rf $OUT' EXIT
 git -C $W apply $D/patch.diff || { echo "PATCH DOES NOT APPLY"; exit 2; }
 (cd $W && go build ./... && go build -tags verif ./... && go test -vet=off -count=1 ./... >/dev/null 2>&1) && echo "== existing suite PASS" || echo "== existing suite FAIL"
 for c in "$@"; do
-  out=$(VERIF_REPO=$W VERIF_OUT=$OUT /verif/bin/vcheck run $c 2>&1); rc=$?
+  out=$(VERIF_REPO=$W VERIF_OUT=$OUT ${VCHECK:-/verif/bin/vcheck} run $c 2>&1); rc=$?
   echo "== check $c: exit=$rc $(echo "$out" | grep -c '^VIOLATION') VIOLATION lines"
   echo "$out" | grep -A1 '^VIOLATION' | sed -n '2p' | cut -c1-400
 done
